@@ -38,9 +38,7 @@ class PLUGIN:
 
 
 def plugins_ok(tape, scope):
-    return [('plugins.sigext.list' if scope == 'signature_extensions' else
-             ('plugins.ctv.list' if scope == 'check_template' else 'plugins.list'),
-             is_list_or_absent(tape.plugins, scope))]
+    return [('plugins.list', is_list_or_absent(tape.plugins, scope))]
 
 
 def no_plugins(tape, scope):
